@@ -176,7 +176,37 @@ def check_quantity_sequence():
     return out
 
 
+def check_reader():
+    """the number syntax the tool reads back (number_parser.number): integers, decimals, fractions and mixed numbers, any digit counts"""
+    out = []
+    seen = set()
+    for i in (None, 0, 1, 2, 9, 10, 12, 107):
+        for n in (0, 1, 2, 3, 7, 9, 10, 11, 12, 25, 99, 100, 113):
+            for d in (1, 2, 3, 4, 7, 8, 10, 11, 12, 16, 100):
+                want = Fraction(n, d) + (i or 0)
+                for text in (("%d/%d", "%d / %d", "%d\t/%d") if i is None else ("%d %d/%d", "%d  %d / %d", "%d\t%d/ %d")):
+                    t = text % ((n, d) if i is None else (i, n, d))
+                    try:
+                        got = parse_number(t)
+                    except Exception as e:  # noqa
+                        got = "raises " + type(e).__name__
+                    if not (isinstance(got, (int, Fraction)) and got == want) and "reader" not in seen:
+                        seen.add("reader")
+                        out.append(("C11:reader-wrong", "number(%r) = %r, written value is %s" % (t, got, want)))
+    for t, want in (("0", 0), ("7", 7), ("12", 12), ("1234567", 1234567), ("3.14", 3.14), ("0.5", 0.5), ("10.25", 10.25), ("007", 7)):
+        try:
+            got = parse_number(t)
+        except Exception as e:  # noqa
+            got = "raises " + type(e).__name__
+        if got != want or type(got) is not type(want):
+            out.append(("C11:reader-wrong", "number(%r) = %r, written value is %r" % (t, got, want)))
+    return out
+
+
 def oracle(run):
+    run.case(("reader",), True, kind="reader")
+    for sig, detail in check_reader():
+        run.violate(sig, detail, {"reader": True})
     run.case(("quantity-sequence",), True, kind="quantity-sequence")
     for sig, detail in check_quantity_sequence():
         run.violate(sig, detail, {"quantity_sequence": True})
@@ -192,6 +222,11 @@ def oracle(run):
 
 
 def replay(run, obj):
+    if obj["replay"].get("reader"):
+        res = check_reader()
+        for r in res:
+            print(*r)
+        return bool(res)
     if obj["replay"].get("quantity_sequence"):
         res = check_quantity_sequence()
         for r in res:
